@@ -424,8 +424,13 @@ func runClientSendOpt(sc scenario, rr bool) *outcome {
 			rn.peer.WriteWindowUpdate(0, st.N)
 		case kStreamGrant:
 			w := rn.byIdx[st.S]
-			if w == nil || w.closedAt != 0 || w.rstIn || w.rstOut || w.trailers || rn.led.StreamCredit(w.id)+int64(st.N) > 1<<31-1 {
+			if w == nil || rn.led.StreamCredit(w.id)+int64(st.N) > 1<<31-1 {
 				continue
+			}
+			if w.closedAt != 0 || w.rstIn || w.rstOut || w.trailers {
+				// a WINDOW_UPDATE for a stream that already ended is legal (RFC 9113
+				// 5.1) and must not be credited to anything else
+				label = "late-stream+"
 			}
 			rn.peer.WriteWindowUpdate(w.id, st.N)
 		case kSettings:
